@@ -259,6 +259,51 @@ def norm_inc_args(prog, f, call, consts, block):
     return (amt,) if col is None else (col, amt)
 
 
+def stepper_calls(prog, hf):
+    """A batch stepper `step_all(counter)`: no stores and no loops of its own (constant-trip loops are unrolled by
+    the specialiser), two or more calls, all to ONE defined helper, each handing on its own first parameter with
+    literal further arguments.  Returns (helper, [(call, [constants])]) or None.  Callers treat a call of the
+    stepper as that list of increment calls, so the per-lane rules see the same facts as for the unrolled spelling."""
+    if hf is None or hf.decl or hf.loops() or any(i["op"] == "store" for i in hf.all_insts()):
+        return None
+    calls = [i for i in hf.all_insts() if i["op"] == "call"]
+    if len(calls) < 2 or any(i["callee"][0] != "f" for i in calls):
+        return None
+    g = prog.resolve(hf.unit, calls[0]["callee"][1])
+    if g is None or g.decl or g is hf:
+        return None
+    out = []
+    for i in calls:
+        if prog.resolve(hf.unit, i["callee"][1]) is not g or len(i["ops"]) < 2:
+            return None
+        op = i["ops"][0]
+        while op[0] == "i" and hf.insts[op[1]]["op"] in ("bitcast", "getelementptr") and \
+                (hf.insts[op[1]]["op"] == "bitcast" or (not hf.insts[op[1]]["gep"]["vars"] and not hf.insts[op[1]]["gep"]["coff"])):
+            op = hf.insts[op[1]]["gep"]["base"] if hf.insts[op[1]]["op"] == "getelementptr" else hf.insts[op[1]]["ops"][0]
+        if list(op) != ["a", 0]:
+            return None
+        cs = []
+        for o in i["ops"][1:]:
+            while o[0] == "i" and hf.insts[o[1]]["op"] in ("zext", "sext", "trunc"):
+                o = hf.insts[o[1]]["ops"][0]
+            if o[0] != "c":
+                return None
+            cs.append(int(o[1]))
+        out.append((i, cs))
+    return g, out
+
+
+def inc_tuples(prog, f, call, consts, block):
+    """[(helper key or None, legacy tuple)] for one call whose first operand is the counter: the call itself, or the
+    calls of a batch stepper it resolves to."""
+    hf = prog.resolve(f.unit, call["callee"][1]) if call["callee"][0] == "f" else None
+    sc = stepper_calls(prog, hf) if len(call["ops"]) == 1 else None
+    if sc:
+        g, inner = sc
+        return [(g.key, norm_inc_args(prog, hf, i, cs, block)) for (i, cs) in inner]
+    return [(hf.key if hf is not None else None, norm_inc_args(prog, f, call, consts, block))]
+
+
 def counter_helper_ok(f, block, prog=None):
     """increment helper: single loop, constant trip count == block, single exit on the induction variable."""
     loops = f.loops()
@@ -488,9 +533,9 @@ def run_config(ctx, rep, cfg):
                     if prog.resolve(g.unit, i["callee"][1]) is None:
                         continue
                     fl0 = C.field(i["ops"][0]) if i["ops"] else None
-                    if fl0 and fl0[0] == "counter" and len(i["ops"]) >= 2:
+                    if fl0 and fl0[0] == "counter" and (len(i["ops"]) >= 2 or stepper_calls(prog, prog.resolve(g.unit, i["callee"][1]))):
                         cs = [C.lf(o) for o in i["ops"][1:]]
-                        tuples.append(norm_inc_args(prog, g, i, [c[0] if c is not None and lf_is_const(c) else None for c in cs], b.block))
+                        tuples.extend(t for (_hk, t) in inc_tuples(prog, g, i, [c[0] if c is not None and lf_is_const(c) else None for c in cs], b.block))
                 want = [(k, k) for k in range(1, b.lanes)]
                 if sorted(tuples, key=str) == sorted(want, key=str):
                     rep.ok("C05.R4", cons + ":stagger", fsite(g), "lanes staggered by %s" % (want or "nothing (one lane)"), cfg=cn)
@@ -500,7 +545,8 @@ def run_config(ctx, rep, cfg):
                     hf = prog.resolve(g.unit, i["callee"][1])
                     fl0 = C.field(i["ops"][0]) if i["ops"] else None
                     if hf is not None and fl0 and fl0[0] == "counter":
-                        helpers[hf.key] = b.block
+                        sc = stepper_calls(prog, hf) if len(i["ops"]) == 1 else None
+                        helpers[(sc[0] if sc else hf).key] = b.block
             if name.endswith("_encrypt"):
                 for hk in check_encrypt(prog, an, rep, cn, b, name, g, h) or ():
                     helpers[hk] = b.block
@@ -511,6 +557,10 @@ def run_config(ctx, rep, cfg):
                         hf = prog.resolve(g.unit, i["callee"][1])
                         if hf:
                             helpers[hf.key] = b.block
+                    elif fl0 and fl0[0] == "counter" and len(i["ops"]) == 1:
+                        sc = stepper_calls(prog, prog.resolve(g.unit, i["callee"][1]))
+                        if sc:
+                            helpers[sc[0].key] = b.block
     # ---- R1 for setters implemented once in the front end (no dispatch through the back-end table): the value they
     # reset the position to must be BATCH for EVERY back end that can serve the object - a constant, or a context
     # field that this back end sets once to a constant (const_fields)
@@ -584,12 +634,14 @@ def run_config(ctx, rep, cfg):
         C = Ctx5(prog, an, b, ifn, 0)
         tuples = []
         for i in direct_calls(ifn):
-            if prog.resolve(ifn.unit, i["callee"][1]) is None or len(i["ops"]) < 3:
+            if prog.resolve(ifn.unit, i["callee"][1]) is None or not i["ops"]:
+                continue
+            if len(i["ops"]) < 3 and not (len(i["ops"]) == 1 and stepper_calls(prog, prog.resolve(ifn.unit, i["callee"][1]))):
                 continue
             fl0 = C.field(i["ops"][0])
             if fl0 and fl0[0] == "counter":
                 cs = [C.lf(o) for o in i["ops"][1:]]
-                tuples.append(norm_inc_args(prog, ifn, i, [c[0] if c is not None and lf_is_const(c) else None for c in cs], b.block))
+                tuples.extend(t for (_hk, t) in inc_tuples(prog, ifn, i, [c[0] if c is not None and lf_is_const(c) else None for c in cs], b.block))
         want = [(k, k) for k in range(1, b.lanes)]
         init_ok = sorted(tuples, key=str) == sorted(want, key=str)
         # public init dispatching to the set_counter slot with a NULL counter
